@@ -203,6 +203,11 @@ def make_base(auth, fam, proto, nent, nconn, pres):
             entries[1]['peer_port'] = 80
         conn = {'my_addr': local, 'peer_addr': peer, 'my_auth': my_auth, 'peer_auth': peer_auth, 'protect': entries}
     d = {}
+    if nconn == 3:      # ... the untouched first connection is of the OTHER address family
+        o_local, o_peer, o_net = ('2001:db8::1', '2001:db8::3', '2001:db8:3::/64') if fam == 'v4' else ('192.168.0.1', '192.168.0.3', '10.0.3.0/24')
+        d['first'] = {'my_addr': o_local, 'peer_addr': o_peer, 'my_auth': {'id': 'alice.example.org', 'psk': 'k1'},
+                      'peer_auth': {'id': 'carol@example.org', 'psk': 'k2'}, 'integ': ['sha1'], 'dh': ['ecp384'],
+                      'protect': [{'peer_subnet': o_net, 'ip_proto': 'icmp', 'index': 21}]}
     if nconn == 2:      # an untouched first connection: it is loaded before the deviating one is looked at
         d['first'] = {'my_addr': local, 'peer_addr': peer2, 'my_auth': {'id': 'alice.example.org', 'psk': 'k1'},
                       'peer_auth': {'id': 'carol@example.org', 'psk': 'k2'}, 'integ': ['sha1'], 'dh': ['ecp384'],
@@ -213,7 +218,8 @@ def make_base(auth, fam, proto, nent, nconn, pres):
 
 
 BASES = [make_base(*p) for p in itertools.product(('psk', 'rsa'), ('v4', 'v6'), ('esp', 'ah'), (1, 2), (1, 2),
-                                                  ('full', 'minimal'))]
+                                                  ('full', 'minimal'))] + \
+        [make_base(*p) for p in itertools.product(('psk',), ('v4', 'v6'), ('esp',), (1,), (3,), ('full', 'minimal'))]
 
 
 def base_value(base, path):
@@ -462,6 +468,26 @@ def evaluate(d, valid=False, want_ref=False):
         out += compare(conf, reading, given)
     except Exception as ex:   # noqa
         out.append(('observe', type(ex).__name__, 'the loaded object could not be inspected: %s: %s' % (type(ex).__name__, ex)))
+    # the table is used through its look-up: every loaded pair is found, any other pair is reported as not configured (and
+    # as nothing else)
+    for a, b in (('192.0.2.77', '192.0.2.78'), ('2001:db8:77::1', '2001:db8:77::2'), ('192.168.0.1', '192.0.2.78')):
+        try:
+            conf.get_ike_configuration(ipaddress.ip_address(a), ipaddress.ip_address(b))
+            out.append(('lookup', 'found-unconfigured', 'look-up of (%s, %s) returned a connection' % (a, b)))
+        except configuration.ConfigurationNotFound:
+            pass
+        except Exception as ex:   # noqa
+            out.append(('lookup', 'miss:%s' % type(ex).__name__, 'look-up of the unconfigured pair (%s, %s) raised %s: %s' % (
+                a, b, type(ex).__name__, ex)))
+    for (local, peer) in reading:
+        try:
+            c = conf.get_ike_configuration(ipaddress.ip_address(local), ipaddress.ip_address(peer))
+            if (str(c.my_addr), str(c.peer_addr)) != (local, peer):
+                out.append(('lookup', 'wrong-connection', 'look-up of (%s, %s) returned the connection (%s, %s)' % (
+                    local, peer, c.my_addr, c.peer_addr)))
+        except Exception as ex:   # noqa
+            out.append(('lookup', 'hit:%s' % type(ex).__name__, 'look-up of the configured pair (%s, %s) raised %s' % (
+                local, peer, type(ex).__name__)))
     return 'loaded:compared', out
 
 
@@ -664,6 +690,44 @@ def unbound_address_cases():
     return n, out
 
 
+def local_address_kinds_cases():
+    """whatever kind of address the daemon is told to listen on and has a connection for - private, link-local (IPv4 and
+    IPv6), loopback, unique-local - it either does not start or serves that connection from that address: an ACQUIRE for it
+    sends the first request from there, and the handshake with the peer completes"""
+    from harness import scenarios as S
+    from harness.world import State
+    out, n = [], 0
+    for lab, a_addr, b_addr in (('private', '10.0.0.1', '10.0.0.2'), ('ipv4-link-local', '169.254.10.1', '169.254.10.2'),
+                                ('loopback', '127.0.0.2', '127.0.0.3'), ('ipv6-link-local', 'fe80::1', 'fe80::2'),
+                                ('ipv6-unique-local', 'fd00::1', 'fd00::2'), ('ipv6-loopback-peer-global', '2001:db8::1', '2001:db8::2')):
+        n += 1
+        c = S.base_confs()
+        ca, cb = c['A']['conn_ab'], c['B']['conn_ba']
+        ca['my_addr'], ca['peer_addr'], cb['my_addr'], cb['peer_addr'] = a_addr, b_addr, b_addr, a_addr
+        doc = dict(local_kind=lab)
+        try:
+            w = S.new_world(c, {'A': [a_addr], 'B': [b_addr]})
+        except Exception:   # noqa - refusing to start with such an address is the other acceptable outcome
+            continue
+        w.sent_log = []
+        w.step(('acquire', 'A', 0, 0))
+        a = w.endpoints['A']
+        if not a.alive:
+            out.append(('listen-address:%s:daemon-died' % lab, 'listening on %s with a connection on it: the ACQUIRE for that connection '
+                        'ended the daemon: %r' % (a_addr, a.dead_reason[:2]), doc))
+            continue
+        first = [d for d in w.sent_log if d.sender == 'A']
+        if not first or first[0].src != a_addr:
+            out.append(('listen-address:%s:not-served' % lab, 'listening on %s with a connection on it: the ACQUIRE for that connection '
+                        'produced %s (internal errors: %s)' % (a_addr, [(d.src, d.dst) for d in first] or 'no datagram',
+                                                               [e[0] for e in w.step_internal_errors][:2]), doc))
+            continue
+        w.deliver_all()
+        if not all(any(s.state == State.ESTABLISHED for s in e.controller.ike_sas) for e in w.endpoints.values()):
+            out.append(('listen-address:%s:handshake-fails' % lab, 'between %s and %s the initial exchanges do not complete' % (a_addr, b_addr), doc))
+    return n, out
+
+
 RUNTIME_CONFS = ('entries-listed-in-descending-index-order', 'several-dh-groups-peer-wants-the-second', 'several-algorithms')
 
 
@@ -743,6 +807,12 @@ def runtime_case(name):
 
 def replay(path):
     doc = json.load(open(path))
+    if 'local_kind' in doc:
+        viol = [v for v in local_address_kinds_cases()[1] if v[2]['local_kind'] == doc['local_kind']]
+        for v in viol:
+            print('reproduced:', v[0], v[1])
+        print('REPLAY %s' % ('reproduces a violation' if viol else 'does not reproduce'))
+        sys.exit(1 if viol else 0)
     if 'runtime' in doc:
         viol = runtime_case(doc['runtime'])[1]
         for v in viol:
@@ -792,6 +862,9 @@ def main():
                 msg, doc['base'], ', '.join(doc['deviations']) or 'none'), doc)
     ub_n, ub_found = unbound_address_cases()
     n += ub_n
+    lk_n, lk_found = local_address_kinds_cases()
+    n += lk_n
+    ub_found = list(ub_found) + lk_found
     for name in RUNTIME_CONFS:
         rn, rfound = runtime_case(name)
         n += rn
